@@ -27,7 +27,7 @@ def base_decl(cfg, name="Nt"):
     if cfg["fam"] == "string":
         parts.append("sanitize(trim)")
     if cfg["validated"]:
-        parts.append("validate(%s)" % rule)
+        parts.append("validate(%s)" % (rule if not cfg.get("generic") else "predicate = |v| !v.is_empty()"))
     traits = ["Debug"] + [t for t in cfg["traits"]]
     parts.append("derive(%s)" % ", ".join(traits))
     if cfg["new_unchecked"]:
@@ -35,6 +35,11 @@ def base_decl(cfg, name="Nt"):
     if cfg["const_fn"] and cfg["fam"] in ("int", "float") :
         parts.append("const_fn")
     vis = (cfg["vis"] + " ") if cfg["vis"] else ""
+    if cfg.get("generic"):
+        # generic twin of the `any` family: Nt<T>(Vec<T>), used at T = i32
+        decl = "#[nutype(\n    %s\n)]\n%sstruct %s<T>(Vec<T>);\n" % (",\n    ".join(parts), vis, name)
+        mk = ("%s::<i32>::try_new(%s).unwrap()" % (name, val)) if cfg["validated"] else ("%s::<i32>::new(%s)" % (name, val))
+        return decl, mk, ty, val
     decl = "#[nutype(\n    %s\n)]\n%sstruct %s(%s);\n" % (",\n    ".join(parts), vis, name, ty)
     mk = "%s::try_new(%s).unwrap()" % (name, val) if cfg["validated"] else "%s::new(%s)" % (name, val)
     return decl, mk, ty, val
@@ -79,13 +84,17 @@ def attack_file(cfg, attack):
             return head + "mod outer {\n%s}\npub fn attack() { %s }\n" % (inner, body)
         return head + inner + "pub fn attack() { %s }\n" % body
     body = re.sub(r"(?<![A-Za-z_:])m::", "", body)
-    return head + "pub mod m {\n    use nutype::nutype;\n    %s\n    pub fn mk() -> Nt { %s }\n    pub fn attack() { %s }\n}\n" % (
-        decl.replace("\n", "\n    "), mk, body)
+    if cfg.get("generic"):
+        body = body.replace("Nt::", "Nt::<i32>::").replace("Nt(", "Nt::<i32>(").replace("<Nt as", "<Nt<i32> as").replace("let Nt::<i32>(x)", "let Nt(x)")
+    rt = "Nt<i32>" if cfg.get("generic") else "Nt"
+    return head + "pub mod m {\n    use nutype::nutype;\n    %s\n    pub fn mk() -> %s { %s }\n    pub fn attack() { %s }\n}\n" % (
+        decl.replace("\n", "\n    "), rt, mk, body)
 
 
 def control_file(cfg):
     decl, mk, ty, val = base_decl(cfg)
-    inner = "pub mod m {\n    use nutype::nutype;\n    %s\n    pub fn mk() -> Nt { %s }\n}\n" % (decl.replace("\n", "\n    "), mk)
+    rt = "Nt<i32>" if cfg.get("generic") else "Nt"
+    inner = "pub mod m {\n    use nutype::nutype;\n    %s\n    pub fn mk() -> %s { %s }\n}\n" % (decl.replace("\n", "\n    "), rt, mk)
     return "#![allow(unused, private_interfaces, dead_code)]\n%spub fn control() { let t = m::mk(); let _ = t.into_inner(); }\n" % inner
 
 
@@ -130,13 +139,22 @@ def check_C05():
         keep += [r for r in rows if r["cfg"]["fam"] == "float" and r["cfg"]["traits"] and r["cfg"]["vis"] == "" and r["cfg"]["validated"] and r not in keep][:2]
         rest = [r for r in rows if r not in keep]
         rows = keep + rng.sample(rest, 30)
+    # generic twins (the `any` family with a type parameter): the new_unchecked flag on a generic type is `dontcare`
+    # for acceptance (it does not compile on the pinned code), so its control may fail; IF it compiles, the attacks must not
+    for nu in (False, True):
+        for validated in (False, True):
+            rows.append({"cfg": {"fam": "any", "validated": validated, "traits": ["AsRef", "Deref", "Borrow"], "new_unchecked": nu, "vis": "pub(crate)",
+                                 "const_fn": False, "generic": True},
+                         "attacks": ["tuple_ctor", "field_write", "deref_assign", "push_through_deref", "call_sanitize", "hidden_module_ctor", "for_in_mut"]
+                                    + (["new_unchecked_without_unsafe"] if nu else ["new_unchecked_without_flag"]),
+                         "control_may_fail": nu})
     # ---------------- (C) attack catalogue
     files, meta = {}, {}
     for ci, row in enumerate(rows):
         cfg = row["cfg"]
         cid = "c%03d_control" % ci
         files[cid] = control_file(cfg)
-        meta[cid] = (cfg, "control")
+        meta[cid] = (cfg, "control_optional" if row.get("control_may_fail") else "control")
         for a in row["attacks"]:
             if a in ("as_mut", "borrow_mut", "deref_assign", "deref_mut", "mem_replace", "iter_mut", "for_in_mut", "push_through_deref") and cfg["fam"] == "string" and a in ("iter_mut", "for_in_mut", "push_through_deref"):
                 continue
@@ -157,9 +175,10 @@ def check_C05():
     bad_controls = [k for k in files if meta[k][1] == "control" and k not in alive]
     if bad_controls:
         raise ToolError("positive controls do not compile: %s" % [(k, rejected[k][:1]) for k in bad_controls[:3]])
+    dead_controls = set(k[:4] for k in files if meta[k][1] == "control_optional" and k not in alive)
     for k in sorted(files):
         cfg, a = meta[k]
-        if a == "control":
+        if a in ("control", "control_optional") or k[:4] in dead_controls:
             continue
         n_att += 1
         if k in alive:
